@@ -11,6 +11,7 @@
 #include "rec.h"
 #include <atomic>
 #include <thread>
+#include <chrono>
 
 namespace {
 
@@ -91,17 +92,22 @@ bool parse_op(const std::string& text, Op& op) {
   return op.g >= 0 && op.code >= 0 && ((op.code == GENERATOR) == (f.size() == 3));
 }
 
-struct Slot { Buf out; const char* exc; };
+struct Slot { Buf out; const char* exc; long t0, t1; };   // t0/t1: ns since the barrier opened (evidence of overlap only)
 struct ThreadPlan { std::vector<Op> ops; std::vector<Slot> slots; };
 
 std::atomic<int> arrived(0);
 std::atomic<bool> go(false);
+std::chrono::steady_clock::time_point released;
+inline long since_release() { return (long)std::chrono::duration_cast<std::chrono::nanoseconds>(std::chrono::steady_clock::now() - released).count(); }
 
 void worker(const World* w, ThreadPlan* tp) {
   arrived.fetch_add(1, std::memory_order_acq_rel);
   long spins = 0;
   while (!go.load(std::memory_order_acquire)) { if (++spins > 20000) std::this_thread::yield(); }
-  for (size_t i = 0; i < tp->ops.size(); ++i) tp->slots[i].exc = perform(*w, tp->ops[i], tp->slots[i].out);
+  for (size_t i = 0; i < tp->ops.size(); ++i) {
+    Slot& s = tp->slots[i];
+    s.t0 = since_release(); s.exc = perform(*w, tp->ops[i], s.out); s.t1 = since_release();
+  }
 }
 
 void put_bits(rec::Out& o, const char* k, const Buf& b) {
@@ -124,7 +130,7 @@ int main(int argc, char** argv) {
       ThreadPlan tp; std::vector<std::string> os = split(ths[k], ',');
       for (size_t i = 0; i < os.size(); ++i) { Op op; if (!parse_op(os[i], op)) { std::fprintf(stderr, "bad operation '%s'\n", os[i].c_str()); return 2; } tp.ops.push_back(op); }
       tp.slots.resize(tp.ops.size());
-      for (size_t i = 0; i < tp.slots.size(); ++i) { tp.slots[i].out.reserve(128); tp.slots[i].exc = "not_run"; }
+      for (size_t i = 0; i < tp.slots.size(); ++i) { tp.slots[i].out.reserve(128); tp.slots[i].exc = "not_run"; tp.slots[i].t0 = tp.slots[i].t1 = 0; }
       plan.push_back(tp);
     }
   }
@@ -135,6 +141,7 @@ int main(int argc, char** argv) {
     std::vector<std::thread> th;
     for (size_t k = 0; k < plan.size(); ++k) th.emplace_back(worker, &world, &plan[k]);
     while (arrived.load(std::memory_order_acquire) < (int)plan.size()) std::this_thread::yield();
+    released = std::chrono::steady_clock::now();
     go.store(true, std::memory_order_release);
     for (size_t k = 0; k < th.size(); ++k) th[k].join();
   } else {
@@ -150,6 +157,7 @@ int main(int argc, char** argv) {
       o.begin("op"); o.str("p", "C14"); o.raw("g", std::string("{\"k\":\"") + GROUP_NAMES[op.g] + "\"}"); o.str("sc", "d");
       o.str("mode", mode); o.num("plan", plan_id); o.num("seed", (long)seed); o.num("th", (long)k + 1); o.num("i", (long)i + 1);
       o.str("op", op.text); o.str("exc", plan[k].slots[i].exc); o.str("pexc", pexc);
+      o.num("t0", plan[k].slots[i].t0); o.num("t1", plan[k].slots[i].t1);
       put_bits(o, "out", plan[k].slots[i].out); put_bits(o, "post", post);
       o.end();
     }
